@@ -23,6 +23,9 @@ CONSTANTS N,          \* frames per acquisition
           AVG,        \* averaging window (1 = filter idle)
           Epochs,     \* number of acquisitions
           WithAbort, WithMonitor,
+          Delay,      \* write delay: 0 = none; d > 0 = the sink holds back frames younger than the delay - abstracted as: a
+                      \* look at the queue may write only a prefix of what it mapped (possibly nothing), at most d such
+                      \* short looks in a row before time has passed and everything mapped is old enough
           CamFailAt,  \* frame index at which the camera fails in epoch 1 (>= N+1: never)
           StorFailAt, \* append index at which storage fails in epoch 1 (>= N+1: never)
           Repaired
@@ -135,17 +138,26 @@ FK: runF := FALSE; stopF := FALSE; doneF := TRUE; goto F0;
 }
 
 fair process (Sink = "K")
-variables slice = 0;
+variables slice = 0, old = 0, short = 0;
 {
 K0: await runK /\ ~doneK;
 K1: while (~stopK /\ storRunning) {
-K2:   \* read_map: everything available, or less (one read ends where the ring wraps)
-      with (n \in (IF Len(sq) - sc > 0 THEN 1..(Len(sq) - sc) ELSE {0})) { slice := n; };
-K3:   if (slice > 0) {                               \* storage_append
-        if (epoch = 1 /\ nappend = StorFailAt) { storFailed := TRUE; storRunning := FALSE; goto KE; }
-        else { stor := stor \o SubSeq(sq, sc + 1, sc + slice); nappend := nappend + 1; };
-K4:     SinkConsume(slice);                          \* read_unmap
-        goto K2;
+K2:   \* read_map: everything available, or less (one read ends where the ring wraps);
+      \* vfslice_split_at_delay_ms: the frames of it that are older than the write delay (all of them without a delay)
+      with (n \in (IF Len(sq) - sc > 0 THEN 1..(Len(sq) - sc) ELSE {0})) {
+        slice := n;
+        with (c \in (IF Delay > 0 /\ short < Delay THEN 0..n ELSE {n})) {
+          old := c;
+          short := IF c < n THEN short + 1 ELSE 0;
+        };
+      };
+K3:   if (slice > 0) {                               \* storage_append of the old part (nothing to do when it is empty)
+        if (old > 0) {
+          if (epoch = 1 /\ nappend = StorFailAt) { storFailed := TRUE; storRunning := FALSE; goto KE; }
+          else { stor := stor \o SubSeq(sq, sc + 1, sc + old); nappend := nappend + 1; };
+        };
+K4:     SinkConsume(old);                            \* read_unmap of what was written
+        goto K2;                                     \* (the inner loop runs as long as the mapped region was not empty)
       };
 K5:   skip;                                          \* throttle
     };
@@ -231,13 +243,13 @@ StorOk == \A i \in 1..Len(stor) :
                  /\ (i > N \div AVG \/ ~Clean) /\ stor[i][2] + stor[i][3] <= cam)
 Complete == IF AVG <= 1 THEN Len(stor) = N ELSE Len(stor) >= N \div AVG
 
-VARIABLES iframe, got, batch, slice, polls, mslice, monitoring
+VARIABLES iframe, got, batch, slice, old, short, polls, mslice, monitoring
 
 vars == << pc, epoch, phase, aborted, fq, facc, sq, sacc, sreg, sc, mreg, mc, 
            stopS, stopF, stopK, runS, runF, runK, doneS, doneF, doneK, 
            camRunning, storRunning, camFailed, storFailed, cam, nappend, stor, 
-           monSeen, bad, acc, iframe, got, batch, slice, polls, mslice, 
-           monitoring >>
+           monSeen, bad, acc, iframe, got, batch, slice, old, short, polls, 
+           mslice, monitoring >>
 
 ProcSet == {"S"} \cup {"F"} \cup {"K"} \cup {"C"}
 
@@ -279,6 +291,8 @@ Init == (* Global variables *)
         /\ batch = 0
         (* Process Sink *)
         /\ slice = 0
+        /\ old = 0
+        /\ short = 0
         (* Process Client *)
         /\ polls = 0
         /\ mslice = 0
@@ -296,7 +310,7 @@ S0 == /\ pc["S"] = "S0"
                       mreg, mc, stopS, stopF, stopK, runS, runF, runK, doneS, 
                       doneF, doneK, camRunning, storRunning, camFailed, 
                       storFailed, cam, nappend, stor, monSeen, bad, acc, got, 
-                      batch, slice, polls, mslice, monitoring >>
+                      batch, slice, old, short, polls, mslice, monitoring >>
 
 S1 == /\ pc["S"] = "S1"
       /\ IF ~stopS /\ iframe < N
@@ -306,7 +320,8 @@ S1 == /\ pc["S"] = "S1"
                       mreg, mc, stopS, stopF, stopK, runS, runF, runK, doneS, 
                       doneF, doneK, camRunning, storRunning, camFailed, 
                       storFailed, cam, nappend, stor, monSeen, bad, acc, 
-                      iframe, got, batch, slice, polls, mslice, monitoring >>
+                      iframe, got, batch, slice, old, short, polls, mslice, 
+                      monitoring >>
 
 S2 == /\ pc["S"] = "S2"
       /\ IF AVG > 1
@@ -321,7 +336,8 @@ S2 == /\ pc["S"] = "S2"
                       mreg, mc, stopS, stopF, stopK, runS, runF, runK, doneS, 
                       doneF, doneK, camRunning, storRunning, camFailed, 
                       storFailed, cam, nappend, stor, monSeen, bad, acc, 
-                      iframe, batch, slice, polls, mslice, monitoring >>
+                      iframe, batch, slice, old, short, polls, mslice, 
+                      monitoring >>
 
 S3 == /\ pc["S"] = "S3"
       /\ IF got
@@ -338,8 +354,8 @@ S3 == /\ pc["S"] = "S3"
       /\ UNCHANGED << epoch, phase, aborted, fq, facc, sq, sacc, sreg, sc, 
                       mreg, mc, stopS, stopF, stopK, runS, runF, runK, doneS, 
                       doneF, doneK, storRunning, storFailed, nappend, stor, 
-                      monSeen, bad, acc, iframe, got, batch, slice, polls, 
-                      mslice, monitoring >>
+                      monSeen, bad, acc, iframe, got, batch, slice, old, short, 
+                      polls, mslice, monitoring >>
 
 S4 == /\ pc["S"] = "S4"
       /\ IF AVG > 1
@@ -356,7 +372,7 @@ S4 == /\ pc["S"] = "S4"
                       stopS, stopF, stopK, runS, runF, runK, doneS, doneF, 
                       doneK, camRunning, storRunning, camFailed, storFailed, 
                       cam, nappend, stor, monSeen, bad, acc, got, batch, slice, 
-                      polls, mslice, monitoring >>
+                      old, short, polls, mslice, monitoring >>
 
 S5 == /\ pc["S"] = "S5"
       /\ stopF' = TRUE
@@ -365,7 +381,7 @@ S5 == /\ pc["S"] = "S5"
                       mreg, mc, stopS, stopK, runS, runF, runK, doneS, doneF, 
                       doneK, camRunning, storRunning, camFailed, storFailed, 
                       cam, nappend, stor, monSeen, bad, acc, iframe, got, 
-                      batch, slice, polls, mslice, monitoring >>
+                      batch, slice, old, short, polls, mslice, monitoring >>
 
 S5j == /\ pc["S"] = "S5j"
        /\ IF Repaired
@@ -376,7 +392,8 @@ S5j == /\ pc["S"] = "S5j"
                        mreg, mc, stopS, stopF, stopK, runS, runF, runK, doneS, 
                        doneF, doneK, camRunning, storRunning, camFailed, 
                        storFailed, cam, nappend, stor, monSeen, bad, acc, 
-                       iframe, got, batch, slice, polls, mslice, monitoring >>
+                       iframe, got, batch, slice, old, short, polls, mslice, 
+                       monitoring >>
 
 S6 == /\ pc["S"] = "S6"
       /\ stopK' = TRUE
@@ -385,7 +402,7 @@ S6 == /\ pc["S"] = "S6"
                       mreg, mc, stopS, stopF, runS, runF, runK, doneS, doneF, 
                       doneK, camRunning, storRunning, camFailed, storFailed, 
                       cam, nappend, stor, monSeen, bad, acc, iframe, got, 
-                      batch, slice, polls, mslice, monitoring >>
+                      batch, slice, old, short, polls, mslice, monitoring >>
 
 S7 == /\ pc["S"] = "S7"
       /\ camRunning' = FALSE
@@ -394,7 +411,7 @@ S7 == /\ pc["S"] = "S7"
                       mreg, mc, stopS, stopF, stopK, runS, runF, runK, doneS, 
                       doneF, doneK, storRunning, camFailed, storFailed, cam, 
                       nappend, stor, monSeen, bad, acc, iframe, got, batch, 
-                      slice, polls, mslice, monitoring >>
+                      slice, old, short, polls, mslice, monitoring >>
 
 S8 == /\ pc["S"] = "S8"
       /\ stopS' = FALSE
@@ -405,7 +422,7 @@ S8 == /\ pc["S"] = "S8"
                       mreg, mc, stopF, stopK, runF, runK, doneF, doneK, 
                       camRunning, storRunning, camFailed, storFailed, cam, 
                       nappend, stor, monSeen, bad, acc, iframe, got, batch, 
-                      slice, polls, mslice, monitoring >>
+                      slice, old, short, polls, mslice, monitoring >>
 
 Source == S0 \/ S1 \/ S2 \/ S3 \/ S4 \/ S5 \/ S5j \/ S6 \/ S7 \/ S8
 
@@ -416,7 +433,8 @@ F0 == /\ pc["F"] = "F0"
                       mreg, mc, stopS, stopF, stopK, runS, runF, runK, doneS, 
                       doneF, doneK, camRunning, storRunning, camFailed, 
                       storFailed, cam, nappend, stor, monSeen, bad, acc, 
-                      iframe, got, batch, slice, polls, mslice, monitoring >>
+                      iframe, got, batch, slice, old, short, polls, mslice, 
+                      monitoring >>
 
 F1 == /\ pc["F"] = "F1"
       /\ IF ~stopF
@@ -426,7 +444,8 @@ F1 == /\ pc["F"] = "F1"
                       mreg, mc, stopS, stopF, stopK, runS, runF, runK, doneS, 
                       doneF, doneK, camRunning, storRunning, camFailed, 
                       storFailed, cam, nappend, stor, monSeen, bad, acc, 
-                      iframe, got, batch, slice, polls, mslice, monitoring >>
+                      iframe, got, batch, slice, old, short, polls, mslice, 
+                      monitoring >>
 
 F2 == /\ pc["F"] = "F2"
       /\ batch' = Len(fq)
@@ -435,7 +454,8 @@ F2 == /\ pc["F"] = "F2"
                       mreg, mc, stopS, stopF, stopK, runS, runF, runK, doneS, 
                       doneF, doneK, camRunning, storRunning, camFailed, 
                       storFailed, cam, nappend, stor, monSeen, bad, acc, 
-                      iframe, got, slice, polls, mslice, monitoring >>
+                      iframe, got, slice, old, short, polls, mslice, 
+                      monitoring >>
 
 F3 == /\ pc["F"] = "F3"
       /\ IF batch > 0
@@ -458,7 +478,7 @@ F3 == /\ pc["F"] = "F3"
                       mc, stopS, stopF, stopK, runS, runF, runK, doneS, doneF, 
                       doneK, camRunning, storRunning, camFailed, storFailed, 
                       cam, nappend, stor, monSeen, bad, iframe, got, slice, 
-                      polls, mslice, monitoring >>
+                      old, short, polls, mslice, monitoring >>
 
 F4 == /\ pc["F"] = "F4"
       /\ IF acc # <<>> /\ acc[3] >= AVG
@@ -474,7 +494,7 @@ F4 == /\ pc["F"] = "F4"
                       mc, stopS, stopF, stopK, runS, runF, runK, doneS, doneF, 
                       doneK, camRunning, storRunning, camFailed, storFailed, 
                       cam, nappend, stor, monSeen, bad, iframe, got, batch, 
-                      slice, polls, mslice, monitoring >>
+                      slice, old, short, polls, mslice, monitoring >>
 
 F5 == /\ pc["F"] = "F5"
       /\ TRUE
@@ -483,7 +503,8 @@ F5 == /\ pc["F"] = "F5"
                       mreg, mc, stopS, stopF, stopK, runS, runF, runK, doneS, 
                       doneF, doneK, camRunning, storRunning, camFailed, 
                       storFailed, cam, nappend, stor, monSeen, bad, acc, 
-                      iframe, got, batch, slice, polls, mslice, monitoring >>
+                      iframe, got, batch, slice, old, short, polls, mslice, 
+                      monitoring >>
 
 FF == /\ pc["F"] = "FF"
       /\ batch' = Len(fq)
@@ -492,7 +513,8 @@ FF == /\ pc["F"] = "FF"
                       mreg, mc, stopS, stopF, stopK, runS, runF, runK, doneS, 
                       doneF, doneK, camRunning, storRunning, camFailed, 
                       storFailed, cam, nappend, stor, monSeen, bad, acc, 
-                      iframe, got, slice, polls, mslice, monitoring >>
+                      iframe, got, slice, old, short, polls, mslice, 
+                      monitoring >>
 
 FG == /\ pc["F"] = "FG"
       /\ IF batch > 0
@@ -515,7 +537,7 @@ FG == /\ pc["F"] = "FG"
                       mc, stopS, stopF, stopK, runS, runF, runK, doneS, doneF, 
                       doneK, camRunning, storRunning, camFailed, storFailed, 
                       cam, nappend, stor, monSeen, bad, iframe, got, slice, 
-                      polls, mslice, monitoring >>
+                      old, short, polls, mslice, monitoring >>
 
 FH == /\ pc["F"] = "FH"
       /\ IF acc # <<>> /\ acc[3] >= AVG
@@ -531,7 +553,7 @@ FH == /\ pc["F"] = "FH"
                       mc, stopS, stopF, stopK, runS, runF, runK, doneS, doneF, 
                       doneK, camRunning, storRunning, camFailed, storFailed, 
                       cam, nappend, stor, monSeen, bad, iframe, got, batch, 
-                      slice, polls, mslice, monitoring >>
+                      slice, old, short, polls, mslice, monitoring >>
 
 FI == /\ pc["F"] = "FI"
       /\ IF Repaired /\ Len(fq) > 0
@@ -541,7 +563,8 @@ FI == /\ pc["F"] = "FI"
                       mreg, mc, stopS, stopF, stopK, runS, runF, runK, doneS, 
                       doneF, doneK, camRunning, storRunning, camFailed, 
                       storFailed, cam, nappend, stor, monSeen, bad, acc, 
-                      iframe, got, batch, slice, polls, mslice, monitoring >>
+                      iframe, got, batch, slice, old, short, polls, mslice, 
+                      monitoring >>
 
 FJ == /\ pc["F"] = "FJ"
       /\ IF acc # <<>>
@@ -557,7 +580,7 @@ FJ == /\ pc["F"] = "FJ"
                       mc, stopS, stopF, stopK, runS, runF, runK, doneS, doneF, 
                       doneK, camRunning, storRunning, camFailed, storFailed, 
                       cam, nappend, stor, monSeen, bad, iframe, got, batch, 
-                      slice, polls, mslice, monitoring >>
+                      slice, old, short, polls, mslice, monitoring >>
 
 FK == /\ pc["F"] = "FK"
       /\ runF' = FALSE
@@ -568,7 +591,7 @@ FK == /\ pc["F"] = "FK"
                       mreg, mc, stopS, stopK, runS, runK, doneS, doneK, 
                       camRunning, storRunning, camFailed, storFailed, cam, 
                       nappend, stor, monSeen, bad, acc, iframe, got, batch, 
-                      slice, polls, mslice, monitoring >>
+                      slice, old, short, polls, mslice, monitoring >>
 
 Filter == F0 \/ F1 \/ F2 \/ F3 \/ F4 \/ F5 \/ FF \/ FG \/ FH \/ FI \/ FJ
              \/ FK
@@ -580,7 +603,8 @@ K0 == /\ pc["K"] = "K0"
                       mreg, mc, stopS, stopF, stopK, runS, runF, runK, doneS, 
                       doneF, doneK, camRunning, storRunning, camFailed, 
                       storFailed, cam, nappend, stor, monSeen, bad, acc, 
-                      iframe, got, batch, slice, polls, mslice, monitoring >>
+                      iframe, got, batch, slice, old, short, polls, mslice, 
+                      monitoring >>
 
 K1 == /\ pc["K"] = "K1"
       /\ IF ~stopK /\ storRunning
@@ -590,11 +614,15 @@ K1 == /\ pc["K"] = "K1"
                       mreg, mc, stopS, stopF, stopK, runS, runF, runK, doneS, 
                       doneF, doneK, camRunning, storRunning, camFailed, 
                       storFailed, cam, nappend, stor, monSeen, bad, acc, 
-                      iframe, got, batch, slice, polls, mslice, monitoring >>
+                      iframe, got, batch, slice, old, short, polls, mslice, 
+                      monitoring >>
 
 K2 == /\ pc["K"] = "K2"
       /\ \E n \in (IF Len(sq) - sc > 0 THEN 1..(Len(sq) - sc) ELSE {0}):
-           slice' = n
+           /\ slice' = n
+           /\ \E c \in (IF Delay > 0 /\ short < Delay THEN 0..n ELSE {n}):
+                /\ old' = c
+                /\ short' = (IF c < n THEN short + 1 ELSE 0)
       /\ pc' = [pc EXCEPT !["K"] = "K3"]
       /\ UNCHANGED << epoch, phase, aborted, fq, facc, sq, sacc, sreg, sc, 
                       mreg, mc, stopS, stopF, stopK, runS, runF, runK, doneS, 
@@ -604,26 +632,30 @@ K2 == /\ pc["K"] = "K2"
 
 K3 == /\ pc["K"] = "K3"
       /\ IF slice > 0
-            THEN /\ IF epoch = 1 /\ nappend = StorFailAt
-                       THEN /\ storFailed' = TRUE
-                            /\ storRunning' = FALSE
-                            /\ pc' = [pc EXCEPT !["K"] = "KE"]
-                            /\ UNCHANGED << nappend, stor >>
-                       ELSE /\ stor' = stor \o SubSeq(sq, sc + 1, sc + slice)
-                            /\ nappend' = nappend + 1
-                            /\ pc' = [pc EXCEPT !["K"] = "K4"]
-                            /\ UNCHANGED << storRunning, storFailed >>
+            THEN /\ IF old > 0
+                       THEN /\ IF epoch = 1 /\ nappend = StorFailAt
+                                  THEN /\ storFailed' = TRUE
+                                       /\ storRunning' = FALSE
+                                       /\ pc' = [pc EXCEPT !["K"] = "KE"]
+                                       /\ UNCHANGED << nappend, stor >>
+                                  ELSE /\ stor' = stor \o SubSeq(sq, sc + 1, sc + old)
+                                       /\ nappend' = nappend + 1
+                                       /\ pc' = [pc EXCEPT !["K"] = "K4"]
+                                       /\ UNCHANGED << storRunning, storFailed >>
+                       ELSE /\ pc' = [pc EXCEPT !["K"] = "K4"]
+                            /\ UNCHANGED << storRunning, storFailed, nappend, 
+                                            stor >>
             ELSE /\ pc' = [pc EXCEPT !["K"] = "K5"]
                  /\ UNCHANGED << storRunning, storFailed, nappend, stor >>
       /\ UNCHANGED << epoch, phase, aborted, fq, facc, sq, sacc, sreg, sc, 
                       mreg, mc, stopS, stopF, stopK, runS, runF, runK, doneS, 
                       doneF, doneK, camRunning, camFailed, cam, monSeen, bad, 
-                      acc, iframe, got, batch, slice, polls, mslice, 
-                      monitoring >>
+                      acc, iframe, got, batch, slice, old, short, polls, 
+                      mslice, monitoring >>
 
 K4 == /\ pc["K"] = "K4"
-      /\ LET nsc == sc + slice IN
-           LET m == IF mreg THEN Min(sc + slice, mc) ELSE sc + slice IN
+      /\ LET nsc == sc + old IN
+           LET m == IF mreg THEN Min(sc + old, mc) ELSE sc + old IN
              /\ sq' = SubSeq(sq, m + 1, Len(sq))
              /\ sc' = nsc - m
              /\ mc' = IF mreg THEN mc - m ELSE 0
@@ -632,7 +664,7 @@ K4 == /\ pc["K"] = "K4"
                       stopF, stopK, runS, runF, runK, doneS, doneF, doneK, 
                       camRunning, storRunning, camFailed, storFailed, cam, 
                       nappend, stor, monSeen, bad, acc, iframe, got, batch, 
-                      slice, polls, mslice, monitoring >>
+                      slice, old, short, polls, mslice, monitoring >>
 
 K5 == /\ pc["K"] = "K5"
       /\ TRUE
@@ -641,7 +673,8 @@ K5 == /\ pc["K"] = "K5"
                       mreg, mc, stopS, stopF, stopK, runS, runF, runK, doneS, 
                       doneF, doneK, camRunning, storRunning, camFailed, 
                       storFailed, cam, nappend, stor, monSeen, bad, acc, 
-                      iframe, got, batch, slice, polls, mslice, monitoring >>
+                      iframe, got, batch, slice, old, short, polls, mslice, 
+                      monitoring >>
 
 KF == /\ pc["K"] = "KF"
       /\ \E n \in (IF Len(sq) - sc > 0 THEN 1..(Len(sq) - sc) ELSE {0}):
@@ -651,7 +684,8 @@ KF == /\ pc["K"] = "KF"
                       mreg, mc, stopS, stopF, stopK, runS, runF, runK, doneS, 
                       doneF, doneK, camRunning, storRunning, camFailed, 
                       storFailed, cam, nappend, stor, monSeen, bad, acc, 
-                      iframe, got, batch, polls, mslice, monitoring >>
+                      iframe, got, batch, old, short, polls, mslice, 
+                      monitoring >>
 
 KG == /\ pc["K"] = "KG"
       /\ IF slice > 0
@@ -673,8 +707,8 @@ KG == /\ pc["K"] = "KG"
       /\ UNCHANGED << epoch, phase, aborted, fq, facc, sq, sacc, sreg, sc, 
                       mreg, mc, stopS, stopF, stopK, runS, runF, runK, doneS, 
                       doneF, doneK, camRunning, camFailed, cam, monSeen, bad, 
-                      acc, iframe, got, batch, slice, polls, mslice, 
-                      monitoring >>
+                      acc, iframe, got, batch, slice, old, short, polls, 
+                      mslice, monitoring >>
 
 KH == /\ pc["K"] = "KH"
       /\ LET nsc == sc + slice IN
@@ -687,7 +721,7 @@ KH == /\ pc["K"] = "KH"
                       stopF, stopK, runS, runF, runK, doneS, doneF, doneK, 
                       camRunning, storRunning, camFailed, storFailed, cam, 
                       nappend, stor, monSeen, bad, acc, iframe, got, batch, 
-                      slice, polls, mslice, monitoring >>
+                      slice, old, short, polls, mslice, monitoring >>
 
 KS == /\ pc["K"] = "KS"
       /\ storRunning' = FALSE
@@ -696,7 +730,7 @@ KS == /\ pc["K"] = "KS"
                       mreg, mc, stopS, stopF, stopK, runS, runF, runK, doneS, 
                       doneF, doneK, camRunning, camFailed, storFailed, cam, 
                       nappend, stor, monSeen, bad, acc, iframe, got, batch, 
-                      slice, polls, mslice, monitoring >>
+                      slice, old, short, polls, mslice, monitoring >>
 
 KD == /\ pc["K"] = "KD"
       /\ runK' = FALSE
@@ -707,7 +741,7 @@ KD == /\ pc["K"] = "KD"
                       mreg, mc, stopS, stopF, runS, runF, doneS, doneF, 
                       camRunning, storRunning, camFailed, storFailed, cam, 
                       nappend, stor, monSeen, bad, acc, iframe, got, batch, 
-                      slice, polls, mslice, monitoring >>
+                      slice, old, short, polls, mslice, monitoring >>
 
 KE == /\ pc["K"] = "KE"
       /\ stopS' = TRUE
@@ -716,7 +750,7 @@ KE == /\ pc["K"] = "KE"
                       mreg, mc, stopF, stopK, runS, runF, runK, doneS, doneF, 
                       doneK, camRunning, storRunning, camFailed, storFailed, 
                       cam, nappend, stor, monSeen, bad, acc, iframe, got, 
-                      batch, slice, polls, mslice, monitoring >>
+                      batch, slice, old, short, polls, mslice, monitoring >>
 
 KE1 == /\ pc["K"] = "KE1"
        /\ IF Repaired
@@ -728,7 +762,7 @@ KE1 == /\ pc["K"] = "KE1"
                        stopS, stopF, stopK, runS, runF, runK, doneS, doneF, 
                        doneK, camRunning, storRunning, camFailed, storFailed, 
                        cam, nappend, stor, monSeen, bad, acc, iframe, got, 
-                       batch, slice, polls, mslice, monitoring >>
+                       batch, slice, old, short, polls, mslice, monitoring >>
 
 KE2 == /\ pc["K"] = "KE2"
        /\ storRunning' = FALSE
@@ -737,7 +771,7 @@ KE2 == /\ pc["K"] = "KE2"
                        mreg, mc, stopS, stopF, stopK, runS, runF, runK, doneS, 
                        doneF, doneK, camRunning, camFailed, storFailed, cam, 
                        nappend, stor, monSeen, bad, acc, iframe, got, batch, 
-                       slice, polls, mslice, monitoring >>
+                       slice, old, short, polls, mslice, monitoring >>
 
 KE3 == /\ pc["K"] = "KE3"
        /\ runK' = FALSE
@@ -748,7 +782,7 @@ KE3 == /\ pc["K"] = "KE3"
                        mreg, mc, stopS, stopF, runS, runF, doneS, doneF, 
                        camRunning, storRunning, camFailed, storFailed, cam, 
                        nappend, stor, monSeen, bad, acc, iframe, got, batch, 
-                       slice, polls, mslice, monitoring >>
+                       slice, old, short, polls, mslice, monitoring >>
 
 Sink == K0 \/ K1 \/ K2 \/ K3 \/ K4 \/ K5 \/ KF \/ KG \/ KH \/ KS \/ KD
            \/ KE \/ KE1 \/ KE2 \/ KE3
@@ -777,7 +811,7 @@ C0 == /\ pc["C"] = "C0"
                                  cam, nappend, stor, monSeen >>
       /\ UNCHANGED << phase, fq, facc, sq, mreg, mc, stopS, stopF, runS, runF, 
                       doneS, doneF, camRunning, bad, acc, iframe, got, batch, 
-                      slice, polls, mslice, monitoring >>
+                      slice, old, short, polls, mslice, monitoring >>
 
 C1 == /\ pc["C"] = "C1"
       /\ stopF' = FALSE
@@ -788,7 +822,7 @@ C1 == /\ pc["C"] = "C1"
                       mreg, mc, stopS, stopK, runS, runK, doneS, doneK, 
                       camRunning, storRunning, camFailed, storFailed, cam, 
                       nappend, stor, monSeen, bad, acc, iframe, got, batch, 
-                      slice, polls, mslice, monitoring >>
+                      slice, old, short, polls, mslice, monitoring >>
 
 C2 == /\ pc["C"] = "C2"
       /\ camRunning' = TRUE
@@ -799,8 +833,8 @@ C2 == /\ pc["C"] = "C2"
       /\ UNCHANGED << epoch, phase, aborted, fq, facc, sq, sacc, sreg, sc, 
                       mreg, mc, stopF, stopK, runF, runK, doneF, doneK, 
                       storRunning, camFailed, storFailed, cam, nappend, stor, 
-                      monSeen, bad, acc, iframe, got, batch, slice, polls, 
-                      mslice, monitoring >>
+                      monSeen, bad, acc, iframe, got, batch, slice, old, short, 
+                      polls, mslice, monitoring >>
 
 C2r == /\ pc["C"] = "C2r"
        /\ phase' = "running"
@@ -812,7 +846,7 @@ C2r == /\ pc["C"] = "C2r"
                        stopS, stopF, stopK, runS, runF, runK, doneS, doneF, 
                        doneK, camRunning, storRunning, camFailed, storFailed, 
                        cam, nappend, stor, monSeen, bad, acc, iframe, got, 
-                       batch, slice, mslice >>
+                       batch, slice, old, short, mslice >>
 
 C3 == /\ pc["C"] = "C3"
       /\ IF monitoring /\ (runS \/ runF \/ runK \/ (mreg /\ mc < Len(sq)))
@@ -828,7 +862,7 @@ C3 == /\ pc["C"] = "C3"
                       stopS, stopF, stopK, runS, runF, runK, doneS, doneF, 
                       doneK, camRunning, storRunning, camFailed, storFailed, 
                       cam, nappend, stor, monSeen, bad, acc, iframe, got, 
-                      batch, slice, polls, mslice, monitoring >>
+                      batch, slice, old, short, polls, mslice, monitoring >>
 
 C3m == /\ pc["C"] = "C3m"
        /\ \E n \in (IF Len(sq) - mc > 0 THEN 1..(Len(sq) - mc) ELSE {0}):
@@ -839,7 +873,7 @@ C3m == /\ pc["C"] = "C3m"
                        mreg, mc, stopS, stopF, stopK, runS, runF, runK, doneS, 
                        doneF, doneK, camRunning, storRunning, camFailed, 
                        storFailed, cam, nappend, stor, bad, acc, iframe, got, 
-                       batch, slice, polls, monitoring >>
+                       batch, slice, old, short, polls, monitoring >>
 
 C3u == /\ pc["C"] = "C3u"
        /\ LET nmc == mc + mslice IN
@@ -852,7 +886,7 @@ C3u == /\ pc["C"] = "C3u"
                        stopS, stopF, stopK, runS, runF, runK, doneS, doneF, 
                        doneK, camRunning, storRunning, camFailed, storFailed, 
                        cam, nappend, stor, monSeen, bad, acc, iframe, got, 
-                       batch, slice, polls, mslice, monitoring >>
+                       batch, slice, old, short, polls, mslice, monitoring >>
 
 C4 == /\ pc["C"] = "C4"
       /\ \/ /\ TRUE
@@ -866,7 +900,7 @@ C4 == /\ pc["C"] = "C4"
                       stopF, stopK, runS, runF, runK, doneS, doneF, doneK, 
                       camRunning, storRunning, camFailed, storFailed, cam, 
                       nappend, stor, monSeen, bad, acc, iframe, got, batch, 
-                      slice, polls, mslice, monitoring >>
+                      slice, old, short, polls, mslice, monitoring >>
 
 C4a == /\ pc["C"] = "C4a"
        /\ sacc' = FALSE
@@ -875,7 +909,7 @@ C4a == /\ pc["C"] = "C4a"
                        stopS, stopF, stopK, runS, runF, runK, doneS, doneF, 
                        doneK, camRunning, storRunning, camFailed, storFailed, 
                        cam, nappend, stor, monSeen, bad, acc, iframe, got, 
-                       batch, slice, polls, mslice, monitoring >>
+                       batch, slice, old, short, polls, mslice, monitoring >>
 
 C5 == /\ pc["C"] = "C5"
       /\ phase' = "stopping"
@@ -884,7 +918,7 @@ C5 == /\ pc["C"] = "C5"
                       stopS, stopF, stopK, runS, runF, runK, doneS, doneF, 
                       doneK, camRunning, storRunning, camFailed, storFailed, 
                       cam, nappend, stor, monSeen, bad, acc, iframe, got, 
-                      batch, slice, polls, mslice, monitoring >>
+                      batch, slice, old, short, polls, mslice, monitoring >>
 
 C5j == /\ pc["C"] = "C5j"
        /\ doneS
@@ -893,7 +927,8 @@ C5j == /\ pc["C"] = "C5j"
                        mreg, mc, stopS, stopF, stopK, runS, runF, runK, doneS, 
                        doneF, doneK, camRunning, storRunning, camFailed, 
                        storFailed, cam, nappend, stor, monSeen, bad, acc, 
-                       iframe, got, batch, slice, polls, mslice, monitoring >>
+                       iframe, got, batch, slice, old, short, polls, mslice, 
+                       monitoring >>
 
 C6 == /\ pc["C"] = "C6"
       /\ doneF
@@ -902,7 +937,8 @@ C6 == /\ pc["C"] = "C6"
                       mreg, mc, stopS, stopF, stopK, runS, runF, runK, doneS, 
                       doneF, doneK, camRunning, storRunning, camFailed, 
                       storFailed, cam, nappend, stor, monSeen, bad, acc, 
-                      iframe, got, batch, slice, polls, mslice, monitoring >>
+                      iframe, got, batch, slice, old, short, polls, mslice, 
+                      monitoring >>
 
 C7 == /\ pc["C"] = "C7"
       /\ doneK
@@ -911,7 +947,8 @@ C7 == /\ pc["C"] = "C7"
                       mreg, mc, stopS, stopF, stopK, runS, runF, runK, doneS, 
                       doneF, doneK, camRunning, storRunning, camFailed, 
                       storFailed, cam, nappend, stor, monSeen, bad, acc, 
-                      iframe, got, batch, slice, polls, mslice, monitoring >>
+                      iframe, got, batch, slice, old, short, polls, mslice, 
+                      monitoring >>
 
 C8 == /\ pc["C"] = "C8"
       /\ sacc' = TRUE
@@ -935,8 +972,8 @@ C8 == /\ pc["C"] = "C8"
       /\ UNCHANGED << epoch, phase, aborted, facc, stopS, stopF, stopK, runS, 
                       runF, runK, doneS, doneF, doneK, camRunning, storRunning, 
                       camFailed, storFailed, cam, nappend, stor, monSeen, bad, 
-                      acc, iframe, got, batch, slice, polls, mslice, 
-                      monitoring >>
+                      acc, iframe, got, batch, slice, old, short, polls, 
+                      mslice, monitoring >>
 
 C9 == /\ pc["C"] = "C9"
       /\ phase' = "armed"
@@ -951,7 +988,7 @@ C9 == /\ pc["C"] = "C9"
                       stopS, stopF, stopK, runS, runF, runK, doneS, doneF, 
                       doneK, camRunning, storRunning, camFailed, storFailed, 
                       cam, nappend, stor, monSeen, acc, iframe, got, batch, 
-                      slice, polls, mslice, monitoring >>
+                      slice, old, short, polls, mslice, monitoring >>
 
 CX == /\ pc["C"] = "CX"
       /\ phase' = "done"
@@ -960,7 +997,7 @@ CX == /\ pc["C"] = "CX"
                       stopS, stopF, stopK, runS, runF, runK, doneS, doneF, 
                       doneK, camRunning, storRunning, camFailed, storFailed, 
                       cam, nappend, stor, monSeen, bad, acc, iframe, got, 
-                      batch, slice, polls, mslice, monitoring >>
+                      batch, slice, old, short, polls, mslice, monitoring >>
 
 Client == C0 \/ C1 \/ C2 \/ C2r \/ C3 \/ C3m \/ C3u \/ C4 \/ C4a \/ C5
              \/ C5j \/ C6 \/ C7 \/ C8 \/ C9 \/ CX
